@@ -17,3 +17,4 @@ def run(ck):
     alloc.r9_failure_is_atomic(ck, P)
     alloc.r10_cleanup_count_is_fresh(ck, P)
     alloc.r11_broken_operand_not_dropped(ck, P)
+    alloc.r12_region_storage_released_before_overwrite(ck, P, 'C15-R12')
